@@ -67,6 +67,12 @@ def run(ctx):
     optional_viewport(ctx)
     root_members(ctx)
     reify_unresolved(ctx)
+    # SVG.parse reifies every path it has built, outside its `except ValueError`: the segments' __imul__ run on whatever the
+    # path parser retained, including segments without a start or control point
+    ctx.rule("R10.9", "reifying a path that retains a segment with a missing point does not raise (obligations shared with C09 R09.8)")
+    from . import c09
+
+    c09.transform_tolerates_missing_points(ctx, "R10.9")
 
 
 # --------------------------------------------------------------------------- R10.1
